@@ -48,14 +48,19 @@ def documentedFields : Spec02 → Option (List Poly)
   | .massConservation u => some [massDoc polyOps (comp u)]
   | .navierStokes nu rho u p => some [nsDoc polyOps nu rho (comp u) p 0, nsDoc polyOps nu rho (comp u) p 1]
 
+/-- `Σ_m |c_m · pt^e_m|` over the monomials of `p`: the magnitude against which the rounding of an
+    evaluation of `p` in floating point is measured -/
+def absSum (p : Poly) (pt : List Rat) : Rat := (p.map (fun m => absQ (Poly.monoEval pt m))).foldr (· + ·) 0
+
 /-- the documented residual at the point; `none` where it is not defined (GLV with `u_main(t) = 0`,
-    Navier–Stokes with `rho = 0`).  For GLV also the magnitude of the one inexact intermediate
-    (the quotient `u'/u`), used by the ulp rule. -/
+    Navier–Stokes with `rho = 0`).  For GLV also the magnitude of the one inexact intermediate, the
+    logarithmic derivative `u'/u` as reverse-mode AD accumulates it (`Σ_m |(u')_m(t)| / |u(t)|` over the
+    monomials of `u'`), used by the rounding rule. -/
 def documentedAt (s : Spec02) (pt : List Rat) : Option (List Rat × Rat) :=
   match s with
   | .glv Tmax c r a uMain uOthers =>
     match glvDoc polyOps (fun p => Poly.eval p pt) Tmax c r a uMain uOthers with
-    | some v => some ([v], absQ (Poly.eval (polyOps.dT uMain) pt / Poly.eval uMain pt))
+    | some v => some ([v], absSum (polyOps.dT uMain) pt / absQ (Poly.eval uMain pt))
     | none => none
   | .navierStokes _ rho _ _ =>
     if rho = 0 then none
@@ -93,8 +98,9 @@ def compareAll (name : String) (relTol scale : Rat) : Nat → List Rat → List 
   | _, _, _ => some s!"{name}:number-of-components"
 
 /-- `relTol = 0`: exact equality (every float64 operation of the implementation is exact on the inputs
-    used).  `relTol > 0` (GLV at a point where `u_main(t)` is not a power of two: one correctly rounded
-    division, then one rounded addition): `|obs − doc| ≤ relTol · (|u'/u| + |doc|)`.
+    used).  `relTol > 0` (GLV at a point where `u_main(t)` is not a power of two: `1/u` is rounded and
+    reverse-mode AD propagates it through the monomials of the network with a bounded number `N` of
+    roundings per term, `relTol = N · 2^-53`): `|obs − doc| ≤ relTol · (Σ_m |(u')_m(t)| / |u(t)| + |doc|)`.
     Outside the domain of the documented expression nothing is required. -/
 def holdsC02 (s : Spec02) (pt : List Rat) (observed : List Rat) (relTol : Rat) : Option String :=
   match documentedAt s pt with
